@@ -210,11 +210,21 @@ class Stmts:
             self.ex_block(st.orelse, fr)
 
     def ex_With(self, st: ast.With, fr: Frame) -> None:
+        managed: List[Any] = []
         for item in st.items:
             v = self.ev(item.context_expr, fr)
             if item.optional_vars is not None:
                 self.assign_target(item.optional_vars, v, fr, st)
-        self.ex_block(st.body, fr)
+            managed.append(v)
+        try:
+            self.ex_block(st.body, fr)
+        finally:
+            # leaving the block (normally or not) closes the managed library objects: a ghost event
+            for v in reversed(managed):
+                if isinstance(v, VExt):
+                    h = self.engine.ext_methods.get((v.kind.split(".")[-1], "__exit__"))
+                    if h is not None:
+                        h(self, v, [], {}, st, fr)
 
     def ex_Try(self, st: ast.Try, fr: Frame) -> None:
         def run_finally() -> None:
